@@ -1,4 +1,5 @@
 pub mod c01;
+pub mod c03;
 pub mod c09;
 pub mod c18;
 pub mod c19;
@@ -8,6 +9,7 @@ use crate::Prop;
 pub fn by_id(id: &str) -> Option<Box<dyn Prop>> {
     match id {
         "C01" => Some(Box::new(c01::C01::default())),
+        "C03" => Some(Box::new(c03::C03::default())),
         "C09" => Some(Box::new(c09::C09::default())),
         "C18" => Some(Box::new(c18::C18::default())),
         "C19" => Some(Box::new(c19::C19::default())),
